@@ -15,7 +15,7 @@ import subprocess
 import sys
 
 VERIF = os.path.dirname(os.path.dirname(os.path.abspath(__file__)))
-SCRATCH = '/var/tmp/kv-confirm'
+SCRATCH = '/var/tmp/kv-confirm-' + (sys.argv[2] if len(sys.argv) > 2 else 'x')
 
 
 def sh(cmd, cwd, env=None, timeout=1800):
@@ -31,7 +31,12 @@ def main():
     head = subprocess.run(['git', 'rev-parse', '--short', 'HEAD'], cwd=SCRATCH, capture_output=True, text=True).stdout.strip()
     env = dict(os.environ, PYTHONPATH=f'{SCRATCH}:{SCRATCH}/tools', PYTHONHASHSEED='0', PYTHONDONTWRITEBYTECODE='1')
     ran = []
-    rc, out = sh('/venv/bin/python ' + os.path.abspath(os.path.join(src, 'demo.py')), SCRATCH, env)
+    # run the demo from <clone>/seed_out/c/ so that demos locating the tree relative to themselves see the clone
+    demo_dir = os.path.join(SCRATCH, 'seed_out', 'c')
+    os.makedirs(demo_dir)
+    shutil.copy(os.path.join(src, 'demo.py'), demo_dir)
+    demo = os.path.join(demo_dir, 'demo.py')
+    rc, out = sh('/venv/bin/python ' + demo, SCRATCH, env)
     ran.append({'cmd': 'demo.py on clean checkout ' + head, 'exit': rc, 'tail': out[-300:]})
     ok = rc == 0
     rc, out = sh('git apply --whitespace=nowarn ' + os.path.abspath(os.path.join(src, 'patch.diff')), SCRATCH)
@@ -44,7 +49,7 @@ def main():
         failed = re.search(r'(\d+) failed', out)
         ran.append({'cmd': 'pytest (with change)', 'passed': passed, 'failed': int(failed.group(1)) if failed else 0, 'tail': out[-200:]})
         ok = ok and passed == 181 and not failed
-        rc, out = sh('/venv/bin/python ' + os.path.abspath(os.path.join(src, 'demo.py')), SCRATCH, env)
+        rc, out = sh('/venv/bin/python ' + demo, SCRATCH, env)
         ran.append({'cmd': 'demo.py with change', 'exit': rc, 'tail': out[-600:]})
         ok = ok and rc != 0
     shutil.rmtree(SCRATCH, ignore_errors=True)
